@@ -198,7 +198,7 @@ fn corpus_grammars(tier: Tier) -> Vec<Grammar> {
 /// escapes: every spelling of every pool character in four positions
 fn escape_grammars(tier: Tier) -> Vec<(Grammar, Grammar)> {
     let pool: Vec<char> = if tier == Tier::Quick {
-        vec!['a', '\'', '"', '\\', '\n', '\t', '\u{7f}', '\u{80}', '\u{ff}', '\u{100}', '\u{7ff}', '\u{800}', '\u{d7ff}', '\u{e000}', '\u{ffff}', '\u{10000}', '\u{10ffff}']
+        vec!['a', 'Q', '\'', '"', '\\', '\n', '\t', '\u{7f}', '\u{80}', '\u{ff}', '\u{100}', '\u{7ff}', '\u{800}', '\u{d7ff}', '\u{e000}', '\u{ffff}', '\u{10000}', '\u{10ffff}']
     } else {
         let mut p: Vec<char> = (0x20u8..0x7f).map(|b| b as char).collect();
         p.extend(['\n', '\r', '\t', '\u{7f}', '\u{80}', '\u{ff}', '\u{100}', '\u{7ff}', '\u{800}', '\u{d7ff}', '\u{e000}', '\u{ffff}', '\u{10000}', '\u{10ffff}', '\u{0}', '\u{1f}']);
@@ -218,6 +218,19 @@ fn escape_grammars(tier: Tier) -> Vec<(Grammar, Grammar)> {
                 };
                 for pos in 0..2 {
                     out.push((Grammar { rules: vec![Rule::normal("R", vec![], mk(&l, pos))] }, Grammar { rules: vec![Rule::normal("R", vec![], mk(&canon, pos))] }));
+                }
+                // the same spellings inside case-insensitive literals (ASCII only: others are rejected)
+                if c.is_ascii() {
+                    let mki = |lc: &LitChar, pos: usize| -> Expr {
+                        match pos {
+                            0 => Expr::Lit { chars: vec![lc.clone()], insensitive: true, dq },
+                            1 => Expr::Lit { chars: vec![lc.clone(), lc.clone()], insensitive: true, dq },
+                            _ => Expr::Lit { chars: vec![LitChar::canon('-'), lc.clone(), LitChar::canon('2')], insensitive: true, dq },
+                        }
+                    };
+                    for pos in 0..3 {
+                        out.push((Grammar { rules: vec![Rule::normal("R", vec![], mki(&l, pos))] }, Grammar { rules: vec![Rule::normal("R", vec![], mki(&canon, pos))] }));
+                    }
                 }
             }
             let lo = LitChar::canon('\u{0}');
